@@ -28,6 +28,10 @@ CASE_TIMEOUT = {"quick": 90, "thorough": 300}
 STRATS = ["build", "bfs", "dfs", "block", "scc", "min"]
 
 
+NAMES = 0.0          # this campaign relies on the names it generates
+FREE_INPUTS = 0.0
+
+
 def budget(tier):
     return 1000 if tier == "quick" else 10000
 
